@@ -156,5 +156,5 @@ def huge_length_mutants(templates_):
                 if (ni + vi) % 3 and v < 2 ** 64 - 12:
                     continue
                 nb = b[:p + 1] + bytes([0x88]) + v.to_bytes(8, "big") + b[p + hl:]
-                out.append(dict(t=t["name"], mut="hugelen=%d@%d" % (vi, p), why="toolong", b=list(nb)))
+                out.append(dict(t=t["name"], ver=t["ver"], mut="hugelen=%d@%d" % (vi, p), why="toolong", b=list(nb)))
     return out
